@@ -84,4 +84,16 @@ Theorem C09_format_crlf_is_subst :
      format_model alnum (with_crlf cfg false) s = inr e).
 Proof. exact format_crlf_is_subst. Qed.
 
+(* END TO END, clause 3: an input with CRLF line breaks formats exactly like the same input with LF line breaks (outputs and errors),
+   when nothing is ignored and the lexer commutes with the substitution (a decidable condition on the input, true whenever no token
+   holds a line break; measured true on every applicable case; deriving it from the lexer model is open) *)
+From PasfmtVerif Require Import Model.Format Proofs.FormatProofs Proofs.FormatTotalProofs Proofs.FormatTabsProofs Proofs.FormatWsProofs Proofs.FormatCrlfProofs Proofs.FormatRelayoutProofs Proofs.FormatFragmentProofs.
+Theorem C09_format_crlf_input :
+  forall (alnum : bytes -> bool) (cfg : fconfig) (s : bytes) (segs : list seg),
+  lex_segments s = Some segs ->
+  lex_crlf_commutes s segs ->
+  (forall m : bool, In m (fm_marks segs) -> m = false) ->
+  format_model alnum cfg (FmtDataProofs.lf_to_crlf s) = format_model alnum cfg s.
+Proof. exact format_crlf_input. Qed.
+
 
